@@ -39,6 +39,7 @@ REQUIRED = [P + t for t in (
     # words: the row bodies on little-endian memory (Model/TrapWords.lean) = the per-pixel model = C10 pixel stores
     "a1Store_regenerated", "a1Span_bits", "addAlpha_eq_store4", "row1_words", "row4_words", "row8Fill_words", "flushFill_words",
     "holdsRow_unique", "rowWords_eq_realize", "row1_words_eq_realize", "row4_words_eq_realize", "row8_words_eq_realize",
+    "rasterizeEdgesW_holds", "rasterizeEdgesWB_mem",
     # R4
     "rowCount_split", "pixelValue_add", "pixelCount_hsplit", "pixelCount_edgesplit", "pixelCount_move", "row8_abut",
     # R6
@@ -59,11 +60,14 @@ PARTIAL = {
                                       "addTraps_eq_addShapes). Not covered by RowsOK although the walker is exact there: a right-leaning edge "
                                       "of non-integral slope whose first sample row is exactly its top vertex (tie at that row); covered by the "
                                       "Spec oracle",
-    "rowWords_eq_realize": "the word/nibble/byte row bodies are proved equal to the per-pixel model and to C10 pixel stores per ROW "
-                           "(a8: per pixel row, any sequence of sub-row spans + flush); the row loop itself (line = buf + row*stride, "
-                           "stepping, fill state reset) on memory is not modelled: on the array it is edgesLoop/edgesLoop8, and the "
-                           "driver (flag w) runs the memory row bodies over walkRows for small requests (a4/a8 width <= 9, a1 width "
-                           "<= 140); big-endian SCREEN_SHIFT/SHIFT_4 and the accessor build are not modelled",
+    "rasterizeEdgesW_holds": "the word/nibble/byte row bodies and the loop over the visited rows are modelled on a little-endian build "
+                             "without accessors (SCREEN_SHIFT_*, SHIFT_4 of !WORDS_BIGENDIAN; READ/WRITE plain); of the a1 block only the three "
+                             "stores after MASK_BITS are regenerated (LEFT_MASK/RIGHT_MASK/MASK_BITS, ADD_ALPHA, ADD_SATURATE_8 are "
+                             "hand-written); the memory loop recomputes line = buf + row*stride per visited row where C adds stride at "
+                             "big steps; the driver (flag w) runs rasterizeEdgesW (array-backed form, rasterizeEdgesWB_mem; that its per-row "
+                             "read-out nu is the identity is not proved) against the array model for small requests only "
+                             "(a4/a8 width <= 9, a1 width <= 140) and the library is compared with the array model, not with the memory "
+                             "directly; entry points (add_traps etc.) on memory are folds of this theorem, not stated",
     "triangle_tiles": "R5 is proved for every vertex order (sort by (y,x), left/right by the cross product sign, horizontal sides) "
                       "under TriFits (the int32 differences of clockwise() do not wrap) and area2 != 0; for collinear vertices the "
                       "equality with the symmetric inside test is false at lattice ties of the snapping (both draw nothing else); "
